@@ -39,7 +39,8 @@ COQ_MODEL_OBS = "c06_model"
 CASE_TIMEOUT = 10
 RULE = (
     "comp stream: random dependency shapes of 1-5 harness components (0-3 inputs / 0-3 outputs each, links to any "
-    "output incl. own, direct or behind Scale), infos from constructor / try_connect arguments with random "
+    "output incl. own; link layouts: direct, behind one Scale, behind a chain of two, ONE Scale instance shared by "
+    "several inputs, dead-end adapters on outputs), infos from constructor / try_connect arguments with random "
     "dependencies on own in_infos, in_data, out_infos / transfer rules FromInput, FromOutput, FromValue; initial "
     "pulls on a random subset of inputs; data provision depending on pulled data (rings, blocked pairs, rings with "
     "one breaker); producers starting later than the composition; static outputs; cache on/off; dangling outputs; "
@@ -79,8 +80,8 @@ def _inp(src, own=None, prov=None, rules=None, pull=False, static=False, via="di
     return {"src": src, "own": own, "prov": prov, "rules": rules, "pull": pull, "static": static, "via": via}
 
 
-def _out(own=None, prov_info=None, rules=None, prov_data=None, static=False):
-    return {"static": static, "own": own, "prov_info": prov_info, "rules": rules, "prov_data": prov_data}
+def _out(own=None, prov_info=None, rules=None, prov_data=None, static=False, spare=False):
+    return {"static": static, "own": own, "prov_info": prov_info, "rules": rules, "prov_data": prov_data, "spare": spare}
 
 
 def _comp(ins, outs, time, cache=True):
@@ -125,6 +126,8 @@ def _gen_comp(rng, malformed=False):
     if not outs:
         comps[0]["outs"].append(0)
         outs.append(_out())
+    for sp_ in outs:
+        sp_["spare"] = rng.random() < 0.15  # a dead-end adapter next to the normal links
     owner_o = {o: k for k in range(n) for o in comps[k]["outs"]}
     # inputs
     for k in range(n):
@@ -136,7 +139,8 @@ def _gen_comp(rng, malformed=False):
                 cand = other or cand
             src = rng.choice(cand)
             comps[k]["ins"].append(len(ins))
-            ins.append(_inp(src, static=outs[src]["static"], via=rng.choice(["direct", "direct", "scale"])))
+            ins.append(_inp(src, static=outs[src]["static"],
+                            via=rng.choice(["direct", "direct", "direct", "scale", "chain", "shared0", "shared0", "shared1"])))
     # fill in the specs
     for k in range(n):
         c = comps[k]
@@ -234,21 +238,21 @@ def _gen_script(rng):
     # helper outputs first, then env sources
     for _ in range(no):
         h["outs"].append(len(outs))
-        outs.append(dict(_out(static=False), owner="h"))
+        outs.append(dict(_out(static=False, spare=rng.random() < 0.15), owner="h"))
     nsrc = max(1, rng.choice([1, ni, ni])) if ni else 0
     srcs = []
     for _ in range(nsrc):
         srcs.append(len(outs))
-        outs.append(dict(_out(), owner="env"))
+        outs.append(dict(_out(spare=rng.random() < 0.15), owner="env"))
     for _ in range(ni):
         h["ins"].append(len(ins))
         src = rng.choice(srcs + (h["outs"] if rng.random() < 0.1 and h["outs"] else []))
-        ins.append(dict(_inp(src), owner="h"))
+        ins.append(dict(_inp(src, via=rng.choice(["direct", "direct", "scale", "chain", "shared0"])), owner="h"))
     sinks = []
     for o in h["outs"]:
         for _ in range(rng.choice([0, 1, 1, 2])):
             sinks.append(len(ins))
-            ins.append(dict(_inp(o), owner="env"))
+            ins.append(dict(_inp(o, via=rng.choice(["direct", "direct", "scale", "shared0", "shared0"])), owner="env"))
     for i in h["ins"]:
         sp = ins[i]
         sp["pull"] = rng.random() < 0.6
@@ -373,6 +377,26 @@ def _corpus():
                   "ins": [_inp(0, own=0, pull=True), _inp(1, own=0, pull=True, static=True)],
                   "outs": [_out(prov_info=[[], 0], prov_data=[[], 10]), _out(static=True, own=0, prov_data=[[], 11])],
                   "comps": [_comp([0, 1], [], 0), _comp([], [0, 1], 0)]})
+    # seeded/C06_b: exchanges are counted against the pinged end points, not the direct targets
+    # (1) spare branch: a dead-end adapter next to a normal link, consumer pulls the initial value
+    cs += _perms({"kind": "comp", "start": 0, "auto_start": False, "ins": [_inp(0, own=0, pull=True)],
+                  "outs": [_out(prov_info=[[], 0], prov_data=[[], 10], spare=True)],
+                  "comps": [_comp([], [0], 0), _comp([0], [], 0)]})
+    cs.append({"kind": "comp", "start": 0, "auto_start": False, "ins": [],
+               "outs": [_out(prov_info=[[], 0], prov_data=[[], 10], spare=True)], "comps": [_comp([], [0], 0)]})
+    # (2) ONE adapter shared by two consumers; Late provides the info of its input only after pulling Aux
+    cs += _perms({"kind": "comp", "start": 0, "auto_start": False,
+                  "ins": [_inp(0, own=0, pull=True, via="shared0"),
+                          _inp(0, prov=[[["pull", 2]], 0], pull=True, via="shared0"),
+                          _inp(1, own=0, pull=True)],
+                  "outs": [_out(prov_info=[[], 0], prov_data=[[], 10]), _out(prov_info=[[], 0], prov_data=[[], 11])],
+                  "comps": [_comp([], [0], 0), _comp([], [1], 0), _comp([0], [], 0), _comp([1, 2], [], 0)]})
+    # chain of two adapters, shared adapter inside one component
+    cs += _perms({"kind": "comp", "start": 0, "auto_start": False,
+                  "ins": [_inp(0, own=0, pull=True, via="chain"), _inp(0, prov=[[["pull", 0]], 0], via="shared1"),
+                          _inp(0, own=0, via="shared1")],
+                  "outs": [_out(prov_info=[[], 0], prov_data=[[], 10], spare=True)],
+                  "comps": [_comp([0, 1], [], 0), _comp([2], [0], 0)]})
     return cs
 
 
@@ -448,6 +472,7 @@ class HC(fm.TimeComponent):
     def __init__(self, case, k, log):
         super().__init__()
         self._case, self._k, self._log = case, k, log
+        self._peers = None
         self._cs = case["comps"][k]
         self.time = T(self._cs["time"])
         n_items = sum(len(_items_of(case, c)) for c in case["comps"])
@@ -491,7 +516,13 @@ class HC(fm.TimeComponent):
             # more calls than the proven bound of C06_terminates allows: stop the run, the monitor reports it
             raise RuntimeError("C06: connect loop exceeded the proven iteration bound")
         self.try_connect(start_time, exchange_infos=ex, push_infos=pi, push_data=pd)
-        self._log.append([self._k, self.status.name, before, _count_done(conn), _count_declared(conn)])
+        outstanding = []
+        if self.status.name == "CONNECTED" and self._peers is not None:
+            in_owner, _ = self._peers
+            for i, isp in enumerate(case["ins"]):
+                if isp["src"] in cs["outs"] and in_owner[i].connector.in_infos[f"In{i}"] is None:
+                    outstanding.append(i)
+        self._log.append([self._k, self.status.name, before, _count_done(conn), _count_declared(conn), outstanding])
 
     def _validate(self):
         pass
@@ -531,11 +562,27 @@ def _nominal_out(sp):
     return -2
 
 
-def _link(out, inp, via):
-    if via == "scale":
-        out >> fm.adapters.Scale(1.0) >> inp
-    else:
-        out >> inp
+def _link_all(case, out_obj, in_obj):
+    """direct / one Scale / a chain of two Scales per input / ONE Scale instance shared by all inputs of the
+    same source with the same group tag; plus dead-end adapters on outputs marked spare."""
+    shared = {}
+    for i, sp in enumerate(case["ins"]):
+        out, inp, via = out_obj[sp["src"]], in_obj[i], sp["via"]
+        if via == "scale":
+            out >> fm.adapters.Scale(1.0) >> inp
+        elif via == "chain":
+            out >> fm.adapters.Scale(1.0) >> fm.adapters.Scale(1.0) >> inp
+        elif via.startswith("shared"):
+            key = (sp["src"], via)
+            if key not in shared:
+                shared[key] = fm.adapters.Scale(1.0)
+                out >> shared[key]
+            shared[key] >> inp
+        else:
+            out >> inp
+    for o, sp in enumerate(case["outs"]):
+        if sp.get("spare"):
+            out_obj[o] >> fm.adapters.Scale(2.0)
 
 
 def _run_comp(case):
@@ -551,8 +598,9 @@ def _run_comp(case):
         for o in c["outs"]:
             out_obj[o] = comps[k].outputs[f"Out{o}"]
             out_owner[o] = comps[k]
-    for i, sp in enumerate(case["ins"]):
-        _link(out_obj[sp["src"]], in_obj[i], sp["via"])
+    _link_all(case, out_obj, in_obj)
+    for cmp_ in comps:
+        cmp_._peers = (in_owner, case)
     error, names = None, None
     try:
         composition.connect(None if case["auto_start"] else T(case["start"]))
@@ -605,8 +653,7 @@ def _run_script(case):
             in_obj[i] = inputs[f"In{i}"]
         else:
             in_obj[i] = fm.Input(name=f"In{i}", info=info)
-    for i, sp in enumerate(case["ins"]):
-        _link(out_obj[sp["src"]], in_obj[i], sp["via"])
+    _link_all(case, out_obj, in_obj)
     for i in range(len(case["ins"])):
         in_obj[i].ping()
     conn = ConnectHelper(
@@ -690,7 +737,8 @@ def _ispec(sp):
 
 
 def _ospec(sp):
-    return C("mk_ospec", B(sp["static"]), OZ(sp["own"]), _prov(sp["prov_info"], Z), _rules(sp["rules"]), _prov(sp["prov_data"], N))
+    return C("mk_ospec", B(sp["static"]), OZ(sp["own"]), _prov(sp["prov_info"], Z), _rules(sp["rules"]), _prov(sp["prov_data"], N),
+             B(sp.get("spare", False)))
 
 
 def _ccomp(c):
@@ -798,7 +846,7 @@ def lfp(case):
 
 def _expected_data(case, o, tinfo):
     sp = case["outs"][o]
-    if not any(isp["src"] == o for isp in case["ins"]):
+    if not any(isp["src"] == o for isp in case["ins"]) and not sp.get("spare"):
         return []
     p = sp["prov_data"][1]
     if sp["static"]:
@@ -812,7 +860,10 @@ def _monitor_comp(case, obs):
     comps = case["comps"]
     n_items = sum(len(_items_of(case, c)) for c in comps)
     # per call: status <-> progress
-    for k, st, before, after, declared in obs["events"]:
+    for k, st, before, after, declared, outstanding in obs["events"]:
+        if outstanding:
+            return (f"component {k} was reported CONNECTED while the metadata exchange of input(s) {outstanding} "
+                    f"with its output was still outstanding")
         if after < before:
             return f"component {k}: number of done items decreased in a connect call ({before} -> {after})"
         if st == "CONNECTED":
@@ -947,6 +998,11 @@ def distribution(cases, obss):
         feats["static_out"] += any(o["static"] for o in c["outs"])
         feats["cache_off"] += any(not k["cache"] for k in c["comps"])
         feats["scale_link"] += any(i["via"] == "scale" for i in c["ins"])
+        feats["chain_link"] += any(i["via"] == "chain" for i in c["ins"])
+        feats["shared_adapter"] += any(
+            a["via"].startswith("shared") and b["via"] == a["via"] and a["src"] == b["src"]
+            for x, a in enumerate(c["ins"]) for y, b in enumerate(c["ins"]) if x < y)
+        feats["spare_adapter"] += any(o.get("spare") for o in c["outs"])
         feats["self_link"] += any(c["ins"][i]["src"] in k["outs"] for k in c["comps"] for i in k["ins"])
     rounds = Counter(min(len(o["events"]) // max(1, len(c["comps"])), 8) for c, o in zip(cases, obss) if c["kind"] == "comp" and "events" in o)
     return {"kinds": dict(kinds), "components": dict(ncomp), "outcome": dict(outcome), "stuck_components": dict(nstuck),
@@ -1018,11 +1074,15 @@ def shrink_candidates(case):
             c = copy.deepcopy(case)
             c["ins"][i]["pull"] = False
             yield c
-        if sp["via"] == "scale":
+        if sp["via"] != "direct":
             c = copy.deepcopy(case)
             c["ins"][i]["via"] = "direct"
             yield c
     for o, sp in enumerate(case["outs"]):
+        if sp.get("spare"):
+            c = copy.deepcopy(case)
+            c["outs"][o]["spare"] = False
+            yield c
         for key in ("prov_info", "prov_data"):
             if sp[key] and sp[key][0]:
                 for j in range(len(sp[key][0])):
